@@ -10,4 +10,5 @@ def run(ctx):
         want=["-", "N", "JRW", "JR", "JW", "RW"], given=["-", "N", "JRW", "JR", "RW", "JRWPAS"],
         u1_quick={"want": ["-", "N", "JRW", "JR"], "given": ["-", "N", "JRW", "JR"], "kinds": ["NewGrp", "Sub", "Leave", "SetSelf", "SetOther", "Pub", "Unload"], "maxseq": 1, "nusers": 2},
         u1_thorough={"want": ["-", "N", "JRW", "JR"], "given": ["-", "N", "JRW", "JR"], "kinds": KINDS, "maxseq": 1},
+        gates={"outer": ("DelTopic",), "methods": ("TopicDelete",), "limit": 40},
         sim_quick={"num": 150, "depth": 14}, sim_thorough={"num": 1500, "depth": 18})
